@@ -10,6 +10,11 @@
 //      accepted records not yet passed to Export, whether the exporter's ForceFlush / Shutdown ran during the call,
 //      the exporter Shutdown count so far, and any exporter call begun after a Shutdown of the processor had returned
 //
+//   layer suffix = how the provider is built (they must all be the same provider): tp / lp = from a context; tpv / lpv = the
+//   constructor taking the vector of processors; tpp / lpp = the constructor taking one processor, the remaining children
+//   added with AddProcessor; lpd = the default constructor + AddProcessor; mp = default constructor; mpc = from a MeterContext;
+//   mpv = the (views, resource) constructor; f = the provider's factory (tpf / lpf: Create(vector), mpf: Create(), mlf:
+//   MultiLogRecordProcessorFactory::Create), g = the provider's factory over the context's factory (tpg / lpg / mpg).
 //   fan <ms|tp|ml|lp|mp> <kind>:<flush script>:<shutdown script>,… ; f<z|k|l|m> ; s<z|k|l|m> ; e ; d ; c<i> ; rs<i> ; rf<i>
 //
 // s and b children sit behind a thin forwarding decorator that logs the processor-level call and its result in the
@@ -25,8 +30,18 @@
 #include "opentelemetry/sdk/logs/batch_log_record_processor_options.h"
 #include "opentelemetry/sdk/logs/exporter.h"
 #include "opentelemetry/sdk/logs/logger_context.h"
+#define private public  // SubjLP / SubjTP reach context_ of a provider that built its own context (harness TU only)
 #include "opentelemetry/sdk/logs/logger_provider.h"
+#include "opentelemetry/sdk/trace/tracer_provider.h"
+#undef private
+#include "opentelemetry/sdk/logs/logger_context_factory.h"
+#include "opentelemetry/sdk/logs/logger_provider_factory.h"
 #include "opentelemetry/sdk/logs/multi_log_record_processor.h"
+#include "opentelemetry/sdk/logs/multi_log_record_processor_factory.h"
+#include "opentelemetry/sdk/metrics/meter_context_factory.h"
+#include "opentelemetry/sdk/metrics/meter_provider_factory.h"
+#include "opentelemetry/sdk/trace/tracer_context_factory.h"
+#include "opentelemetry/sdk/trace/tracer_provider_factory.h"
 #include "opentelemetry/sdk/logs/processor.h"
 #include "opentelemetry/sdk/logs/read_write_log_record.h"
 #include "opentelemetry/sdk/logs/simple_log_record_processor.h"
@@ -433,11 +448,26 @@ struct SubjTP : Subject
 {
   sdkt::TracerContext *ctx;
   std::unique_ptr<sdkt::TracerProvider> p;
-  explicit SubjTP(const std::vector<ChildSpec> &cs)
+  SubjTP(const std::vector<ChildSpec> &cs, const std::string &how)
   {
-    std::unique_ptr<sdkt::TracerContext> c(new sdkt::TracerContext(make_children<SpanSig>(cs)));
-    ctx = c.get();
-    p.reset(new sdkt::TracerProvider(std::move(c)));
+    auto kids = make_children<SpanSig>(cs);
+    if (how == "f")
+      p = sdkt::TracerProviderFactory::Create(std::move(kids));
+    else if (how == "g")
+      p = sdkt::TracerProviderFactory::Create(sdkt::TracerContextFactory::Create(std::move(kids)));
+    else if (how == "v" || (how == "p" && kids.empty()))
+      p.reset(new sdkt::TracerProvider(std::move(kids)));
+    else if (how == "p")
+    {
+      p.reset(new sdkt::TracerProvider(std::move(kids[0])));
+      for (size_t i = 1; i < kids.size(); i++) p->AddProcessor(std::move(kids[i]));
+    }
+    else
+    {
+      std::unique_ptr<sdkt::TracerContext> c(new sdkt::TracerContext(std::move(kids)));
+      p.reset(new sdkt::TracerProvider(std::move(c)));
+    }
+    ctx = p->context_.get();
   }
   bool flush(usec t) override { return p->ForceFlush(t); }
   bool shutdown(usec t) override { return p->Shutdown(t); }
@@ -446,8 +476,11 @@ struct SubjTP : Subject
 };
 struct SubjML : Subject
 {
-  std::unique_ptr<sdkl::MultiLogRecordProcessor> p;
-  explicit SubjML(const std::vector<ChildSpec> &cs) : p(new sdkl::MultiLogRecordProcessor(make_children<LogSig>(cs))) {}
+  std::unique_ptr<sdkl::LogRecordProcessor> p;
+  SubjML(const std::vector<ChildSpec> &cs, const std::string &how)
+      : p(how == "f" ? sdkl::MultiLogRecordProcessorFactory::Create(make_children<LogSig>(cs))
+                     : std::unique_ptr<sdkl::LogRecordProcessor>(new sdkl::MultiLogRecordProcessor(make_children<LogSig>(cs))))
+  {}
   bool flush(usec t) override { return p->ForceFlush(t); }
   bool shutdown(usec t) override { return p->Shutdown(t); }
   bool emit() override { return emit_through<LogSig>(*p); }
@@ -457,11 +490,31 @@ struct SubjLP : Subject
 {
   sdkl::LoggerContext *ctx;
   std::unique_ptr<sdkl::LoggerProvider> p;
-  explicit SubjLP(const std::vector<ChildSpec> &cs)
+  SubjLP(const std::vector<ChildSpec> &cs, const std::string &how)
   {
-    std::unique_ptr<sdkl::LoggerContext> c(new sdkl::LoggerContext(make_children<LogSig>(cs)));
-    ctx = c.get();
-    p.reset(new sdkl::LoggerProvider(std::move(c)));
+    auto kids = make_children<LogSig>(cs);
+    if (how == "f")
+      p = sdkl::LoggerProviderFactory::Create(std::move(kids));
+    else if (how == "g")
+      p = sdkl::LoggerProviderFactory::Create(sdkl::LoggerContextFactory::Create(std::move(kids)));
+    else if (how == "v" || (how == "p" && kids.empty()))
+      p.reset(new sdkl::LoggerProvider(std::move(kids)));
+    else if (how == "p")
+    {
+      p.reset(new sdkl::LoggerProvider(std::move(kids[0])));
+      for (size_t i = 1; i < kids.size(); i++) p->AddProcessor(std::move(kids[i]));
+    }
+    else if (how == "d")
+    {
+      p.reset(new sdkl::LoggerProvider());
+      for (auto &k : kids) p->AddProcessor(std::move(k));
+    }
+    else
+    {
+      std::unique_ptr<sdkl::LoggerContext> c(new sdkl::LoggerContext(std::move(kids)));
+      p.reset(new sdkl::LoggerProvider(std::move(c)));
+    }
+    ctx = p->context_.get();
   }
   bool flush(usec t) override { return p->ForceFlush(t); }
   bool shutdown(usec t) override { return p->Shutdown(t); }
@@ -472,7 +525,13 @@ struct SubjMP : Subject
 {
   std::vector<Reader *> readers;  // owned by the provider's collectors
   std::unique_ptr<sdkm::MeterProvider> p;
-  explicit SubjMP(const std::vector<ChildSpec> &cs) : p(new sdkm::MeterProvider())
+  SubjMP(const std::vector<ChildSpec> &cs, const std::string &how)
+      : p(how == "f"   ? sdkm::MeterProviderFactory::Create().release()
+          : how == "g" ? sdkm::MeterProviderFactory::Create(sdkm::MeterContextFactory::Create()).release()
+          : how == "c" ? new sdkm::MeterProvider(std::unique_ptr<sdkm::MeterContext>(new sdkm::MeterContext()))
+          : how == "v" ? new sdkm::MeterProvider(std::unique_ptr<sdkm::ViewRegistry>(new sdkm::ViewRegistry()),
+                                                 opentelemetry::sdk::resource::Resource::Create({}))
+                       : new sdkm::MeterProvider())
   {
     for (size_t i = 0; i < cs.size(); i++)
     {
@@ -556,9 +615,14 @@ static std::string handle(const std::vector<std::string> &toks)
   if (toks.size() < 3 || toks[0] != "fan") return "bad-op";
   auto ops = vh::split_ops(toks, 1);
   if (ops.empty() || ops[0].size() != 2) return "bad-op";
-  const std::string layer = ops[0][0];
+  const std::string layer = ops[0][0].substr(0, 2);
+  const std::string how   = ops[0][0].size() > 2 ? ops[0][0].substr(2) : std::string();
   std::vector<ChildSpec> cs;
   if (layer != "ms" && layer != "tp" && layer != "ml" && layer != "lp" && layer != "mp") return "bad-op";
+  if (!how.empty() && !((layer == "tp" && (how == "v" || how == "p" || how == "f" || how == "g")) ||
+                        (layer == "lp" && (how == "v" || how == "p" || how == "d" || how == "f" || how == "g")) ||
+                        (layer == "mp" && (how == "c" || how == "v" || how == "f" || how == "g")) || (layer == "ml" && how == "f")))
+    return "bad-op";
   if (!parse_children(layer, ops[0][1], cs)) return "bad-op";
   if (ops.size() - 1 > 64) return "bad-op";
   // validate the ops before anything is built
@@ -577,10 +641,10 @@ static std::string handle(const std::vector<std::string> &toks)
   g_log = &log;
   std::unique_ptr<Subject> subj;
   if (layer == "ms") subj.reset(new SubjMS(cs));
-  else if (layer == "tp") subj.reset(new SubjTP(cs));
-  else if (layer == "ml") subj.reset(new SubjML(cs));
-  else if (layer == "lp") subj.reset(new SubjLP(cs));
-  else subj.reset(new SubjMP(cs));
+  else if (layer == "tp") subj.reset(new SubjTP(cs, how));
+  else if (layer == "ml") subj.reset(new SubjML(cs, how));
+  else if (layer == "lp") subj.reset(new SubjLP(cs, how));
+  else subj.reset(new SubjMP(cs, how));
   bool alive = true;
   std::vector<std::string> segs;
   auto seg = [&](const std::string &obs) {
